@@ -1335,6 +1335,14 @@ impl Ms {
                         return false;
                     }
                 }
+                if prop == "C15" && w.dep.as_ref().map(|d| d.refund_failed).unwrap_or(false) && w.props[*id as usize - 1].deposit_taken {
+                    // the deposit goes back on Close only for a proposal that really failed: voting over and not passed
+                    if !h.check(expired && !matches!(o.status, Status::Passed | Status::Executed), "C15/close/deposit-returned-for-a-proposal-that-has-not-failed", || {
+                        format!("Close({id}) succeeded and refunds are on; status before {:?}, expired={expired}", o.status)
+                    }) {
+                        return false;
+                    }
+                }
                 w.props[*id as usize - 1].closed = true;
             } else if o.status == Status::Passed {
                 h.out.count("close_of_passed_rejected");
